@@ -1151,6 +1151,14 @@ func asyncVictim(res *core.Result, r *rand.Rand, nFrames int) {
 		return
 	}
 	defer link.Close(nil)
+	// Nothing hostile has been sent yet. A worker panic at this point is not about network input: the listener
+	// could not bind (the port was taken between probe and bind), which on this tree panics the listen manager
+	// (DESIGN.md 9.6). That victim is not usable; another run decides.
+	collect()
+	if len(alerts) > 0 {
+		res.Count("async_victims_skipped_panic_before_any_input", 1)
+		return
+	}
 	// end-to-end session by hand (the attacker has no router): hello request, wait for the response on its upstream
 	ab := mal.Inst.StateV.GetSession(idV.IP)
 	kx, kxt, _ := ab.Encryption().InitKeyClientStart()
